@@ -426,10 +426,12 @@ func project(dir string) map[string]any {
 				var pr struct{ N, Offset, Size, Completed int64 }
 				if b, err := os.ReadFile(p); err != nil || json.Unmarshal(b, &pr) != nil {
 					be["part"] = "torn"
-				} else if pr.Completed >= pr.Size {
-					be["part"] = "done"
 				} else {
 					be["part"] = "todo"
+					if pr.Completed >= pr.Size {
+						be["part"] = "done"
+					}
+					be["part_size"] = pr.Size
 				}
 			}
 			if li, err := os.Lstat(p); err == nil {
